@@ -567,6 +567,7 @@ func (s *service) handleSubscribe(ctx context.Context, peerId string, sub *pubsu
 		si.trie.Add(pattern)
 		accepted = append(accepted, pattern)
 	}
+	tagged := false
 	if len(accepted) > 0 {
 		tags := make([]string, len(accepted))
 		for i, pattern := range accepted {
@@ -580,6 +581,8 @@ func (s *service) handleSubscribe(ctx context.Context, peerId string, sub *pubsu
 			}
 			s.pruneStream(streamId, strm)
 			s.pruneSpace(sub.SpaceId, si)
+		} else {
+			tagged = true
 		}
 	} else {
 		// nothing was accepted (empty frame, only known patterns, or the cap hit on the
@@ -592,6 +595,19 @@ func (s *service) handleSubscribe(ctx context.Context, peerId string, sub *pubsu
 		s.pruneSpace(sub.SpaceId, si)
 	}
 	s.remoteMu.Unlock()
+
+	// The membership check above ran before remoteMu was taken, so the account may have been
+	// removed - and evicted - in between, and that eviction found nothing to drop yet.
+	// Evictions run under remoteMu, so asking once more now closes the window: either this
+	// check sees the removal, or the eviction that follows the removal sees the interest
+	// registered above.
+	if tagged && s.deps.Membership != nil {
+		if err = s.deps.Membership.CheckMember(ctx, sub.SpaceId, identity); err != nil {
+			s.evictSpaceStreams(sub.SpaceId, func(other *streamInterest) bool { return other == strm })
+			s.sendStatus(ctx, peerId, sub.SpaceId, sub.Topics, pubsubproto.ErrCodes_NotAMember)
+			return
+		}
+	}
 
 	if len(rejected) > 0 {
 		s.sendStatus(ctx, peerId, sub.SpaceId, rejected, pubsubproto.ErrCodes_TooManyTopics)
